@@ -596,4 +596,74 @@ theorem optimizeAbortPre_pres [LE Q] [DecidableLE Q] [LT S] [DecidableLT S] {cfg
             · exact hc
         · exact hc
 
+/-! ### adding a link (round 6f) -/
+
+/-- the configuration after `add_link` registered the link `l` (appended to `Junction.links` of its leader) whose
+    `transform` is `fn`; `l.lid` is new -/
+def Cfg.addLink (cfg : Cfg P Prm) (l : Link) (fn : P → P) : Cfg P Prm :=
+  { clampIdx := cfg.clampIdx, pos := cfg.pos, links := cfg.links ++ [l],
+    linkFn := fun lid => if lid = l.lid then fn else cfg.linkFn lid }
+
+theorem mem_linksOf_addLink {cfg : Cfg P Prm} {l : Link} {fn : P → P} {idx : Nat} {x : Link} :
+    x ∈ linksOf (cfg.addLink l fn) idx ↔ x ∈ linksOf cfg idx ∨ (x = l ∧ l.leader = idx) := by
+  simp only [mem_linksOf, Cfg.addLink, List.mem_append, List.mem_singleton]
+  constructor
+  · rintro ⟨h | h, h2⟩
+    · exact Or.inl ⟨h, h2⟩
+    · exact Or.inr ⟨h, h ▸ h2⟩
+  · rintro (⟨h, h2⟩ | ⟨h, h2⟩)
+    · exact ⟨Or.inl h, h2⟩
+    · exact ⟨Or.inr h, h ▸ h2⟩
+
+/-- a rest state stays a rest state when a link with a new id is added whose follower already sits where the link
+    puts it for the leader's current position (always so when the leader carries no clamp: the link is inert) -/
+theorem rest_addLink {cfg : Cfg P Prm} {n : Nat} {st : St P Prm} (hr : Rest cfg n st) (l : Link) (fn : P → P)
+    (hfresh : ∀ x ∈ cfg.links, x.lid ≠ l.lid)
+    (hon : ∀ j p, cfg.clampIdx[j]? = some l.leader → st.prm[j]? = some p →
+      st.pts[l.follower]? = some (fn (cfg.pos j p))) : Rest (cfg.addLink l fn) n st := by
+  obtain ⟨h1, h2, h3⟩ := hr
+  refine ⟨h1, h2, ?_⟩
+  intro j idx p hj hp
+  obtain ⟨c1, c2⟩ := h3 j idx p hj hp
+  refine ⟨c1, ?_⟩
+  intro x hx
+  rcases mem_linksOf_addLink.mp hx with h | ⟨rfl, hl⟩
+  · have hne : x.lid ≠ l.lid := hfresh x (mem_linksOf.mp h).1
+    have : (cfg.addLink l fn).linkFn x.lid = cfg.linkFn x.lid := by simp [Cfg.addLink, hne]
+    rw [this]; exact c2 x h
+  · have : (cfg.addLink x fn).linkFn x.lid = fn := by simp [Cfg.addLink]
+    rw [this]
+    exact hon j p (by rw [hl]; exact hj) hp
+
+/-- the configuration stays well-formed: either the leader carries no clamp (nothing to check), or the follower is a
+    grid point without clamp that no clamped leader's link writes yet -/
+theorem wf_addLink {cfg : Cfg P Prm} {n : Nat} (hwf : WF cfg n) (l : Link) (fn : P → P)
+    (h : l.leader ∈ cfg.clampIdx → l.follower < n ∧ l.follower ∉ cfg.clampIdx ∧
+      ∀ x ∈ cfg.links, x.leader ∈ cfg.clampIdx → x.follower ≠ l.follower) : WF (cfg.addLink l fn) n := by
+  refine ⟨hwf.nodup, hwf.inRange, ?_, ?_, ?_⟩
+  · intro x hx hle
+    simp only [Cfg.addLink, List.mem_append, List.mem_singleton] at hx
+    rcases hx with hx | rfl
+    · exact hwf.folRange x hx hle
+    · exact (h hle).1
+  · intro x hx hle
+    simp only [Cfg.addLink, List.mem_append, List.mem_singleton] at hx
+    rcases hx with hx | rfl
+    · exact hwf.folFree x hx hle
+    · exact (h hle).2.1
+  · show (((cfg.links ++ [l]).filter (fun x => decide (x.leader ∈ cfg.clampIdx))).map (·.follower)).Nodup
+    rw [List.filter_append, List.map_append]
+    by_cases hl : l.leader ∈ cfg.clampIdx
+    · have : [l].filter (fun x => decide (x.leader ∈ cfg.clampIdx)) = [l] := by simp [hl]
+      rw [this, List.map_singleton, List.nodup_append]
+      refine ⟨hwf.folNodup, List.nodup_singleton _, ?_⟩
+      intro a ha b hb
+      simp only [List.mem_singleton] at hb
+      subst hb
+      simp only [List.mem_map, List.mem_filter, decide_eq_true_eq] at ha
+      obtain ⟨x, ⟨hx, hxl⟩, rfl⟩ := ha
+      exact (h hl).2.2 x hx hxl
+    · have : [l].filter (fun x => decide (x.leader ∈ cfg.clampIdx)) = [] := by simp [hl]
+      rw [this, List.map_nil, List.append_nil]; exact hwf.folNodup
+
 end CBV.C13
